@@ -435,12 +435,12 @@ T_PAIRS = [("start", "start"), ("start", "startw"), ("startw", "startw"), ("star
 
 
 class RaceSuite(Suite):
-    """no model comparison: the oracle is the statement of C04 for start(promise) evaluated on the trace of the real
-    headers under every enumerated interleaving of their atomic operations"""
+    """every enumerated interleaving of the atomic operations of the real headers is replayed on the micro-step model
+    lean/CoclsModel/AsyncRace.lean (same scheduler rule) and diffed line by line; the oracle is the statement of C04 for
+    start(promise) evaluated on the implementation's trace"""
     name = "start-promise-race"
     harness = HARNESS_T
-    driver = None
-    compare = False
+    driver = "drv_c04"
     corpus_prefix = "c04t_"
     chunk = 300
     timeout = 600
@@ -451,9 +451,11 @@ class RaceSuite(Suite):
         cases = []
         # every schedule prefix of length L2 for every 2-thread shape (each start(promise) performs 1-3 atomic operations
         # before the body, at most 6 in all: every interleaving of two contenders is a prefix of length <= 8 + default rest)
+        # (a random tail keeps repeated calls with other PRNG streams from producing identical cases)
         for sh in T_PAIRS:
             for bits in itertools.product([0, 1], repeat=L2):
-                cases.append(t_case(sh, bits))
+                tail = [rng.randrange(2) for _ in range(rng.choice([0, 0, 2, 4]))]
+                cases.append(t_case(sh, list(bits) + tail, rng.choice(["int", "int", "int", "void", "uptr"])))
         # 3 and 4 contenders: random shapes (at least two start threads mostly), random bursty schedules
         for _ in range(n3):
             n = 3 if rng.random() < 0.75 else 4
@@ -600,6 +602,9 @@ class C04(Spec):
     design_ref = "DESIGN.md §5 C04"
     trusted_base = ["hand-written model lean/CoclsModel/Async.lean tied to async.h/future.h by differential correspondence "
                     "(harness/h_async.cpp vs lean/Drivers/C04.lean) on generated programs",
+                    "micro-step model lean/CoclsModel/AsyncRace.lean (threads racing start(promise)) tied to the unmodified headers by "
+                    "step-for-step replay under the interposed-atomics baton scheduler (harness/h_async_t.cpp, shim/verif_shim.h): "
+                    "sequentially consistent interleavings only",
                     "g++ 12 coroutine lowering (frame allocation through promise operator new, destruction of arguments/locals with the frame)",
                     "awaiter chain subscribe/resolve atomicity (C03) and the order in which the executor runs ready coroutines (C05) taken as specified"]
     technique = "Lean 4 invariant proof (induction over all schedules of all scripted programs) + differential correspondence with the real headers"
@@ -611,7 +616,8 @@ class C04(Spec):
                   "harness (sampling), the compiler's coroutine lowering. Cross-thread completions are covered by the theorems (a schedule is any "
                   "operation list) but exercised on the real code only with a helper thread / a one-thread pool whose effects are joined before "
                   "the trace line is printed.")
-    assumptions = ["an async<T> object is started at most once and only while it holds its handle (the code asserts this)",
+    assumptions = ["the promise object shared by racing start(promise) calls is destroyed at most once, after every use of it (C++ object lifetime)",
+                   "an async<T> object is started at most once and only while it holds its handle (the code asserts this)",
                    "a coroutine started with start(promise) does not wait, directly or indirectly, on the future of that promise",
                    "only the driver resolves the external promises (coroutines do not race for them)"]
 
